@@ -53,6 +53,8 @@ def markup_doc(rng):
         pieces.append(f"<{it}>{pl}</{it}> v. <{it}>{df}</{it}>, {vol} {rep} {page}")
     if rng.random() < 0.7:
         pieces.append(f", {page + 3}")
+    if rng.random() < 0.45:
+        pieces.append(f", {vol + 100} {rng.choice(['S. Ct.', 'L. Ed. 2d', 'F.2d'])} {page + 900}")     # parallel citation
     if rng.random() < 0.7:
         pieces.append(f" ({rng.choice([1973, 1999, 2007])})")
     pieces.append(rng.choice([". ", ".\n", ".</p>\n<p>", ". &nbsp;", ".  "]))
